@@ -365,6 +365,247 @@ theorem inner_congr13 (H : Crypto.Prims) (P : Cipher.Prims) (a : Pipeline.SuiteA
                 rw [g]
                 rfl
 
+theorem ksVersion_ne13 (v : Session.Ver) (hv : v ≠ .tls13) : Pipeline.ksVersion v ≠ .tls13 := by
+  cases v <;> simp [Pipeline.ksVersion] at hv ⊢
+
+/-- what `installed12 .firstMaster` says about a non-empty list of CLIENT_RANDOM / RSA lines -/
+def head12 (k : Key) : Res (Bool × List Nat) :=
+  if k.label = s_CLIENT_RANDOM then
+    match fromHex k.value with | some b => .ok (false, b) | none => .valueError
+  else if k.label = s_RSA then
+    match fromHex k.value with | some b => .ok (true, b) | none => .valueError
+  else .unbound
+
+theorem head12_ne_missing (k : Key) : head12 k ≠ .missing := by
+  unfold head12
+  repeat' split
+  all_goals (intro hh; cases hh)
+
+/-- the secret list of `generate_keys` for SSL 3.0 – TLS 1.2 is decided by the first line -/
+theorem secretsOf_false_head (k : Key) (r : List Key) (hl : k.label = s_CLIENT_RANDOM ∨ k.label = s_RSA) :
+    Pipeline.secretsOf false (k :: r) =
+      (fromHex k.value).map fun v => (Pipeline.labelOf k.label, Pipeline.bytesOfNats v) :: r.map fun _ => (.other, []) := by
+  simp only [Pipeline.secretsOf, Bool.false_eq_true, if_false, hl, if_true]
+
+/-- **SSL 3.0 – TLS 1.2**: the tail of `generate_keys` depends on the lines found only through `installed12 .firstMaster` -/
+theorem inner_congr12 (H : Crypto.Prims) (P : Cipher.Prims) (v : Option Session.Ver) (hv : v ≠ some .tls13)
+    (a : Pipeline.SuiteArgs) (cr sr : Bytes) (exts : Session.Exts) (comp : UInt8) (kl1 kl2 : List Key)
+    (h : installed12 .firstMaster kl1 (Pipeline.natsOfBytes cr) = installed12 .firstMaster kl2 (Pipeline.natsOfBytes cr)) :
+    inner H P v a cr sr exts comp (foundOf kl1 v cr) = inner H P v a cr sr exts comp (foundOf kl2 v cr) := by
+  have hi : ∀ kl, installed12 .firstMaster kl (Pipeline.natsOfBytes cr) =
+      match (findSessionSecrets kl (Pipeline.natsOfBytes cr)).filter
+          (fun k => k.label == s_CLIENT_RANDOM || k.label == s_RSA) with
+      | [] => .missing
+      | k :: _ => head12 k := fun _ => rfl
+  rw [hi, hi] at h
+  simp only [foundOf, hv, if_false]
+  have hl : ∀ kl, ∀ k ∈ (findSessionSecrets kl (Pipeline.natsOfBytes cr)).filter
+      (fun k => k.label == s_CLIENT_RANDOM || k.label == s_RSA), k.label = s_CLIENT_RANDOM ∨ k.label = s_RSA := by
+    intro kl k hk
+    have := (List.mem_filter.mp hk).2
+    simpa using this
+  have hl1 := hl kl1
+  have hl2 := hl kl2
+  generalize (findSessionSecrets kl1 (Pipeline.natsOfBytes cr)).filter
+    (fun k => k.label == s_CLIENT_RANDOM || k.label == s_RSA) = f1 at *
+  generalize (findSessionSecrets kl2 (Pipeline.natsOfBytes cr)).filter
+    (fun k => k.label == s_CLIENT_RANDOM || k.label == s_RSA) = f2 at *
+  cases f1 with
+  | nil =>
+    cases f2 with
+    | nil => rfl
+    | cons k r => exact absurd h.symm (head12_ne_missing k)
+  | cons k1 r1 =>
+    cases f2 with
+    | nil => exact absurd h (head12_ne_missing k1)
+    | cons k2 r2 =>
+      simp only at h
+      cases v with
+      | none => rfl
+      | some v' =>
+        have hv' : v' ≠ .tls13 := fun e => hv (by rw [e])
+        simp only [inner, hv', decide_false]
+        by_cases hcomp : comp ≠ 0
+        · rw [if_pos hcomp, if_pos hcomp]
+        · rw [if_neg hcomp, if_neg hcomp]
+          have e1 := hl1 k1 (by simp)
+          have e2 := hl2 k2 (by simp)
+          rw [secretsOf_false_head k1 r1 e1, secretsOf_false_head k2 r2 e2]
+          have hne : s_RSA ≠ s_CLIENT_RANDOM := by decide
+          unfold head12 at h
+          have hgen : ∀ (x : KeySchedule.Secret) (t t' : List KeySchedule.Secret),
+              KeySchedule.generateKeys H (Pipeline.ksVersion v') a.ks (x :: t) cr sr =
+                KeySchedule.generateKeys H (Pipeline.ksVersion v') a.ks (x :: t') cr sr :=
+            fun x t t' => generateKeys_head H _ (ksVersion_ne13 v' hv') a.ks x t t' cr sr
+          rcases e1 with e1 | e1 <;> rcases e2 with e2 | e2 <;> rw [e1, e2] at h ⊢ <;>
+            simp only [hne, if_true, if_false] at h <;>
+            cases hx1 : fromHex k1.value <;> cases hx2 : fromHex k2.value <;> rw [hx1, hx2] at h <;>
+            simp only [Res.ok.injEq, Prod.mk.injEq, reduceCtorEq, Bool.false_eq_true, Bool.true_eq_false, false_and,
+              true_and] at h <;>
+            first
+              | rfl
+              | (simp only [Option.map_some, Option.map_none]; subst h; rw [hgen _ _ (r2.map fun _ => (.other, []))])
+
+/-- the TLS secrets two key lists install agree for every client random -/
+def SameTlsSecrets (kl1 kl2 : List Key) : Prop :=
+  ∀ cr, installed12 .firstMaster kl1 cr = installed12 .firstMaster kl2 cr ∧ installed13 kl1 cr = installed13 kl2 cr
+
+/-- **`Pipeline.genKeys` is connected to `Keylog.installed`**: `generate_keys` reads the key log only through what
+    `installed12 .firstMaster` (SSL 3.0 – TLS 1.2) / `installed13` (TLS 1.3) say for the client random it is called with. -/
+theorem genKeys_of_installed (H : Crypto.Prims) (P : Cipher.Prims) (kl1 kl2 : List Key) (v : Option Session.Ver)
+    (suite cr sr : Bytes) (exts : Session.Exts) (comp : UInt8)
+    (h12 : v ≠ some .tls13 → installed12 .firstMaster kl1 (Pipeline.natsOfBytes cr)
+      = installed12 .firstMaster kl2 (Pipeline.natsOfBytes cr))
+    (h13 : v = some .tls13 → installed13 kl1 (Pipeline.natsOfBytes cr) = installed13 kl2 (Pipeline.natsOfBytes cr)) :
+    Pipeline.genKeys H P kl1 v suite cr sr exts comp = Pipeline.genKeys H P kl2 v suite cr sr exts comp := by
+  rw [genKeys_inner, genKeys_inner]
+  cases (if suite.length = 2 then CipherSuite.resolve (Bytes.beNat suite) else none) with
+  | none => rfl
+  | some ps =>
+    simp only
+    cases Pipeline.suiteArgs ps with
+    | none => rfl
+    | some a =>
+      simp only
+      by_cases hv : v = some .tls13
+      · subst hv; exact inner_congr13 H P a cr sr exts comp kl1 kl2 (h13 rfl)
+      · exact inner_congr12 H P v hv a cr sr exts comp kl1 kl2 (h12 hv)
+
+theorem ops_of_installed (H : Crypto.Prims) (P : Cipher.Prims) (kl1 kl2 : List Key) (h : SameTlsSecrets kl1 kl2) :
+    Pipeline.ops H P kl1 = Pipeline.ops H P kl2 := by
+  unfold Pipeline.ops
+  congr 1
+  funext v suite cr sr exts comp
+  exact genKeys_of_installed H P kl1 kl2 v suite cr sr exts comp (fun _ => (h _).1) (fun _ => (h _).2)
+
+theorem connOut_of_installed (H : Crypto.Prims) (P : Cipher.Prims) (info : Nat → Pipeline.Info) (c : Pipeline.Conn)
+    (kl1 kl2 : List Key) (h : SameTlsSecrets kl1 kl2) :
+    Pipeline.connOut H P info c kl1 = Pipeline.connOut H P info c kl2 := by
+  unfold Pipeline.connOut
+  rw [ops_of_installed H P kl1 kl2 h]
+
+/-! appending the same lines (the DSBs of the capture) to two key lists that install the same TLS secrets -/
+
+theorem scan_append (L : List Str) (x y : List Key) (st : Str → Option (List Nat)) :
+    scan L (x ++ y) st = (scan L x st).bind (scan L y) := by
+  induction x generalizing st with
+  | nil => rfl
+  | cons k ks ih =>
+    simp only [List.cons_append, scan]
+    split
+    · split
+      · rfl
+      · exact ih _
+    · exact ih _
+
+theorem scan_congr (L : List Str) (y : List Key) (st st' : Str → Option (List Nat)) (h : ∀ l ∈ L, st l = st' l) :
+    (scan L y st).map (fun s => L.map s) = (scan L y st').map (fun s => L.map s) := by
+  induction y generalizing st st' with
+  | nil =>
+    simp only [scan, Option.map_some, Option.some.injEq]
+    exact List.map_congr_left h
+  | cons k ks ih =>
+    simp only [scan]
+    split
+    · split
+      · rfl
+      · apply ih
+        intro l hl
+        by_cases e : l = k.label
+        · simp [e]
+        · simp [e, h l hl]
+    · exact ih _ _ h
+
+def res13 (o : Option (Str → Option (List Nat))) : Res (List (Option (List Nat))) :=
+  match o with
+  | none => .valueError
+  | some st => .ok (labels13.map st)
+
+theorem installed13_eq (kl : List Key) (cr : List Nat) :
+    installed13 kl cr = match findSessionSecrets kl cr with
+      | [] => .missing
+      | k :: r => res13 (scan labels13 (k :: r) fun _ => none) := by
+  unfold installed13
+  cases findSessionSecrets kl cr <;> rfl
+
+theorem res13_ne_missing (o : Option (Str → Option (List Nat))) : res13 o ≠ .missing := by
+  cases o <;> (intro h; cases h)
+
+theorem findSessionSecrets_append (a c : List Key) (cr : List Nat) :
+    findSessionSecrets (a ++ c) cr = findSessionSecrets a cr ++ findSessionSecrets c cr := by
+  simp [findSessionSecrets, List.filter_append]
+
+theorem installed12_eq (kl : List Key) (cr : List Nat) :
+    installed12 .firstMaster kl cr =
+      match (findSessionSecrets kl cr).filter (fun k => k.label == s_CLIENT_RANDOM || k.label == s_RSA) with
+      | [] => .missing
+      | k :: _ => head12 k := rfl
+
+/-- the same lines behind two key lists that install the same TLS secrets: still the same TLS secrets -/
+theorem sameTlsSecrets_append (a b c : List Key) (h : SameTlsSecrets a b) : SameTlsSecrets (a ++ c) (b ++ c) := by
+  intro cr
+  obtain ⟨h12, h13⟩ := h cr
+  constructor
+  · rw [installed12_eq, installed12_eq] at h12 ⊢
+    rw [findSessionSecrets_append, findSessionSecrets_append, List.filter_append, List.filter_append]
+    generalize (findSessionSecrets a cr).filter (fun k => k.label == s_CLIENT_RANDOM || k.label == s_RSA) = fa at *
+    generalize (findSessionSecrets b cr).filter (fun k => k.label == s_CLIENT_RANDOM || k.label == s_RSA) = fb at *
+    cases fa with
+    | nil =>
+      cases fb with
+      | nil => rfl
+      | cons k r => exact absurd h12.symm (head12_ne_missing k)
+    | cons k r =>
+      cases fb with
+      | nil => exact absurd h12 (head12_ne_missing k)
+      | cons k' r' => exact h12
+  · rw [installed13_eq, installed13_eq] at h13 ⊢
+    rw [findSessionSecrets_append, findSessionSecrets_append]
+    generalize findSessionSecrets a cr = fa at *
+    generalize findSessionSecrets b cr = fb at *
+    cases fa with
+    | nil =>
+      cases fb with
+      | nil => rfl
+      | cons k r => exact absurd h13.symm (res13_ne_missing _)
+    | cons k r =>
+      cases fb with
+      | nil => exact absurd h13 (res13_ne_missing _)
+      | cons k' r' =>
+        simp only [List.cons_append] at h13 ⊢
+        rw [← List.cons_append, ← List.cons_append, scan_append, scan_append]
+        cases hs1 : scan labels13 (k :: r) fun _ => none with
+        | none =>
+          cases hs2 : scan labels13 (k' :: r') fun _ => none with
+          | none => rfl
+          | some st2 => rw [hs1, hs2] at h13; cases h13
+        | some st1 =>
+          cases hs2 : scan labels13 (k' :: r') fun _ => none with
+          | none => rw [hs1, hs2] at h13; cases h13
+          | some st2 =>
+            rw [hs1, hs2] at h13
+            simp only [res13, Res.ok.injEq] at h13
+            simp only [Option.bind_some]
+            have hst : ∀ l ∈ labels13, st1 l = st2 l := by
+              intro l hl
+              have := List.map_inj_left.mp h13 l hl
+              exact this
+            have := scan_congr labels13 (findSessionSecrets c cr) st1 st2 hst
+            cases h1 : scan labels13 (findSessionSecrets c cr) st1 with
+            | none =>
+              rw [h1] at this
+              cases h2 : scan labels13 (findSessionSecrets c cr) st2 with
+              | none => rfl
+              | some s2 => rw [h2] at this; cases this
+            | some s1 =>
+              rw [h1] at this
+              cases h2 : scan labels13 (findSessionSecrets c cr) st2 with
+              | none => rw [h2] at this; cases this
+              | some s2 =>
+                rw [h2] at this
+                simp only [Option.map_some, Option.some.injEq] at this
+                simp only [res13, this]
+
 end C09
 
 end TLX.Lemmas.ExportSeg
